@@ -246,8 +246,10 @@ def _rand_ops(rng, spec):
         if r < 0.35:
             p = rng.choice(files)
             ops.append(["write", p, rng.choice(["X1", "X2", "S:" + p, "O1"])])
-        elif r < 0.5:
+        elif r < 0.46:
             ops.append(["rm", rng.choice(files)])
+        elif r < 0.5:
+            ops.append(["vanish", rng.choice(sorted(spec["static"]) or files)])
         elif r < 0.65:
             ops.append(["mkdir", rng.choice(dirs)])
         elif r < 0.75:
@@ -583,6 +585,13 @@ WITNESSES = {
                              [["write", "o1.txt", "tampered"]]),
     "failed-step": ({"static": {"a.txt": "A"}, "steps": [{"cmd": "s1", "inp": ["a.txt"], "out": {"o1.txt": "O"}, "state": "FAILED"}]},
                     [["write", "b.txt", "x"]]),
+    # events while the build runs / unchanged re-hashes of deleted paths, on real inotify
+    "vanished-match-during-build": (SC._GLOB_STATIC, [["vanish", "d1/x.dat"]], 5),
+    "vanished-match-event-while-watching": (SC._GLOB_STATIC, [["vanish", "d1/x.dat"]]),
+    "vanished-match-recreated-same": (SC._GLOB_STATIC, [["vanish", "d1/x.dat"], ["write", "d1/x.dat", "x"]], 1),
+    "match-deleted-recreated-same": (SC._GLOB_STATIC_OK, [["rm", "d1/x.dat"], ["write", "d1/x.dat", "x"]]),
+    "match-moved-away-and-back": (SC._GLOB_STATIC_OK, [["mv", "d1/x.dat", "d1/x.bak"], ["mv", "d1/x.bak", "d1/x.dat"]]),
+    "missing-created-then-deleted": (SC._MISSING_MATCH, [["write", "gone.txt", "G"], ["rm", "gone.txt"]]),
 }
 EXPECT = {"D10-mkdir": SIG_D10, "D10-rmdir": SIG_D10, "D10-mvdir": SIG_D10, "D10d-newdir": SIG_D10D,
           "D15-undeclared": SIG_D15}
@@ -1023,7 +1032,7 @@ def _run_sys(ctx, ngen):
             elif name.startswith("D10d-"):
                 sig = SIG_D10D
             else:
-                sig = "sys:watch-vs-restart:" + "+".join(sorted({d["field"] for d in r["diff"]}))
+                sig = "sys:watch-vs-restart:" + S.diff_signature(r["diff"])
             ctx.count("sys_phases_disagreeing")
             if sig in seen:
                 continue
